@@ -31,6 +31,7 @@ import json
 import os
 import pickle
 import shutil
+import time
 import warnings
 
 import numpy as np
@@ -354,12 +355,22 @@ def _ml_observe_obj(m, eo):
     return bad
 
 
-def _ml_observe_disk(path, ed):
+def _disk_signature(path):
+    return tuple(sorted((f, st.st_size, st.st_mtime_ns) for f in os.listdir(path)
+                        for st in [os.stat(os.path.join(path, f))]))
+
+
+def _ml_observe_disk(path, ed, seen):
+    """`seen`: (file signature, expected observation) of the last comparison that passed -- the files are parsed again
+    only when a file or the expectation changed (parsing Matrix Market files dominates the replay otherwise)."""
     from scipy.io import mmread
     bad = []
     if os.path.isdir(path) != ed["present"]:
         return [("disk-present", {"expected": ed["present"]})]
     if not ed["present"]:
+        return bad
+    sig = (_disk_signature(path), json.dumps(ed, sort_keys=True))
+    if seen.get("ok") == sig:
         return bad
     names = json.load(open(os.path.join(path, "manifest.json")))
     with open(os.path.join(path, names["config"]), "rb") as fh:
@@ -373,6 +384,8 @@ def _ml_observe_disk(path, ed):
     bad += _cmp_parts("disk-", ep, _dense(mmread(os.path.join(path, names["tcounts_"]))),
                       _dense(mmread(os.path.join(path, names["tprobs_"]))),
                       np.loadtxt(os.path.join(path, names["eq_probs_"]), ndmin=1), ep["to_original"], ep["to_mapped"], lines)
+    if not bad:
+        seen["ok"] = sig
     return bad
 
 
@@ -431,6 +444,12 @@ def replay_ml(case):
     shutil.rmtree(path, ignore_errors=True)
     assigns = ra.RaggedArray([np.array(t) for t in case["trajs"]])
     objs = {}
+    seen = {}
+    try:                                   # harness-side: the Matrix Market reader/writer starts a thread pool per call
+        import scipy.io._fast_matrix_market as fmm
+        fmm.PARALLELISM = 1
+    except Exception:
+        pass
     for i, op in enumerate(hist):
         exp = trail[i + 1]
         kind, val = _ml_apply(op, objs, assigns, path)
@@ -455,7 +474,7 @@ def replay_ml(case):
                         bad.append(("bound", {"name": x, "expected_live": exp[x]["live"]}))
                     elif x in objs:
                         bad += _ml_observe_obj(objs[x], exp[x])
-                bad += _ml_observe_disk(path, exp["disk"])
+                bad += _ml_observe_disk(path, exp["disk"], seen)
         except Exception as ex:
             bad.append(("observer-raises", {"error": _exc(ex)}))
         if exp["eqdef"] and "a" in objs and "b" in objs:
@@ -501,6 +520,7 @@ def run_part(ctx):
     d = core.spec_tmp(SPEC_DIR)
     tg, mg = dict(TM_GATES), dict(ML_GATES)
     jobs = []
+    t0 = time.time()
 
     # ---- TrimMapping -------------------------------------------------------------------------------------------
     tm = lambda **kw: dict(dict(NOrig=3, NTrim=2, Slots=2, Files=1, MaxPairs=2, Depth=3, Emit=False, Variants=False, OpBudget=0),
@@ -523,11 +543,14 @@ def run_part(ctx):
                      label="TrimMapping %d simulated walks of length 8 (3x3 ids, 3 names, 2 files)" % nw))
 
     # ---- MSM life cycle ----------------------------------------------------------------------------------------------
+    two = "{%d, %d}" % (1 + ctx.seed % 3, 1 + (ctx.seed + 1) % 3)
     ml = lambda **kw: dict(dict(S=3, MaxT=1, MaxLen=3, MaxLag=2, Data="{1, 2, 3}", AnyNew=False, Variants=False, Depth=4,
                                 Emit=False, OpBudget=0), **mg, **kw)
     jobs.append(dict(module="MSMLife", cwd=d, workers=2, coverage=True, timeout=1500, java_opts=("-Xmx3g",),
-                     cfg=_cfg(d, "ml_mc.cfg", ml(Depth=4 if quick else 5), ML_INVS, ML_PROPS, "HistView"),
-                     label="MSMLife exhaustive (VIEW HistView) 3 catalogue assignment sets, depth %d" % (4 if quick else 5)))
+                     cfg=_cfg(d, "ml_mc.cfg", ml(Depth=4 if quick else 5, Data=two if quick else "{1, 2, 3}"), ML_INVS, ML_PROPS,
+                              "HistView"),
+                     label="MSMLife exhaustive (VIEW HistView) catalogue assignment sets %s, depth %d"
+                           % (two if quick else "{1, 2, 3}", 4 if quick else 5)))
     jobs.append(dict(module="MSMLife", cwd=d, workers=1, timeout=1500, java_opts=("-Xmx3g",),
                      cfg=_cfg(d, "ml_op.cfg", ml(Depth=3, Emit=True, Variants=True), ["EmitInv"], [], "OpView"),
                      label="MSMLife every operation in every state of depth <= 2 (VIEW OpView), all entry points"))
@@ -546,7 +569,12 @@ def run_part(ctx):
                               [], "OpView"),
                      label="MSMLife every life cycle of %d different operations on catalogue set %d (VIEW OpView)"
                            % (dc, 1 + ctx.seed % 3)))
-    res = ctx.tlc_parallel(jobs, max_par=3)
+    order = ["tm_mc", "tm_op", "tm_h2", "tm_sim", "ml_mc", "ml_op", "ml_all", "ml_sim", "ml_cyc"]
+    first = ["ml_mc", "tm_mc", "tm_op", "ml_cyc"]                       # the long ones start first
+    sched = first + [n for n in order if n not in first]
+    out = ctx.tlc_parallel([jobs[order.index(n)] for n in sched], max_par=4)
+    res = [out[sched.index(n)] for n in order]
+    ctx.notes["x_trimmap_tlc_wall_s"] = round(time.time() - t0, 1)
 
     # vacuity: every action of the two machines fired in the exhaustive runs
     for r, acts, gated, gates in ((res[0], ["Construct", "SetMapped", "SetOriginal", "Poke", "Copy", "Save", "WriteForeign", "Load",
@@ -559,6 +587,10 @@ def run_part(ctx):
             if not r.coverage.get(a):
                 raise core.MachineryError("vacuous: action %s never fired (%s)" % (a, r.coverage))
 
+    import sklearn.base                      # imported before the workers fork
+    import enspara.msm
+    import enspara.ra
+    t1 = time.time()
     # ---- replay: TrimMapping -------------------------------------------------------------------------------------------
     tm_cases = []
     for k in (1, 2, 3):
@@ -582,9 +614,11 @@ def run_part(ctx):
                            "operation": c["hist"][step], "expected_observation": c["trail"][step + 1], "detail": detail,
                            "how": "real TrimMapping objects vs TrimMapping.tla after step %d" % step},
                           key="trimmapping/" + key)
+    ctx.notes["x_trimmap_tm_replay_wall_s"] = round(time.time() - t1, 1)
     ctx.notes["trimmapping_histories"] = len(tm_cases)
     ctx.notes["trimmapping_operations_replayed"] = ops_seen
 
+    t2 = time.time()
     # ---- replay: MSM life cycle -------------------------------------------------------------------------------------------
     ml_cases = []
     for k in (5, 7, 8):
@@ -610,6 +644,7 @@ def run_part(ctx):
                            "expected_observation": c["trail"][step + 1], "detail": detail,
                            "how": "real MSM objects vs MSMLife.tla after step %d" % step},
                           key="msm-life/" + key)
+    ctx.notes["x_trimmap_ml_replay_wall_s"] = round(time.time() - t2, 1)
     ctx.notes["msm_life_histories"] = len(ml_cases)
     ctx.notes["msm_life_operations_replayed"] = ops_seen
     ctx.notes["x_trimmap_gates"] = {"TrimMapping": tg, "MSMLife": mg}
